@@ -210,7 +210,10 @@ def filter_rules(ctx: Ctx, only=None) -> None:
             arg = nz.norm(c.args[0]) if c.args else None
             d = (q - arg) if arg is not None else None
             # value - (end - onset): two time atoms with coefficients +1 (onset) and -1 (end)
-            ok = d is not None and len(d.terms) == 2 and sorted(d.terms.values()) == [-1, 1] and all(".time" in a for a in d.atoms())
+            # (value - (end - onset)) - value  ==  onset - end : the end with coefficient -1, the onset with +1
+            ok = d is not None and len(d.terms) == 2 and all(".time" in a for a in d.atoms()) \
+                and any(a.endswith("[1].time") and d.terms.get(((a, 1),)) == -1 for a in d.atoms()) \
+                and any(a.endswith("[0].time") and d.terms.get(((a, 1),)) == 1 for a in d.atoms())
         ctx.check(ok, "NOEXT", f"{FN}: with `{flag}` every value longer than the current duration is removed", function=FN,
                   construct=f"{flag} filter does not remove exactly the values with a positive correction",
                   message=f"`{short(g.test, 90)}`", file=fi.file, node=g)
@@ -242,6 +245,21 @@ def filter_rules(ctx: Ctx, only=None) -> None:
         ctx.check(lp is not None and isinstance(lp.iter, ast.Name) and lp.iter.id == nvals, "NOEXT",
                   f"{FN}: `{flag}` filter visits every allowed value", function=FN, construct=f"{flag} filter does not iterate the allowed list",
                   message="", file=fi.file, node=g)
+    ctx.floor("next-note fit filters (NEXT) in quantise_note_lengths", len(nxt), 1)
+    # the pairing compared with is the *next* occurrence of the pitch: occurrences[pitch][position of this pairing + 1]
+    nzi = Normaliser()
+    for a_ in ast.walk(fi.node):
+        if isinstance(a_, ast.Assign) and isinstance(a_.targets[0], ast.Name) and isinstance(a_.value, ast.Subscript) and isinstance(a_.value.value, ast.Subscript) \
+                and any(a_.targets[0].id == x.id for c_, g_ in nxt for x in ast.walk(g_.test) if isinstance(x, ast.Name)):
+            idx = nzi.norm(a_.value.slice)
+            idx_names = [x for x in idx.atoms()]
+            defs_ = [d_ for d_ in ast.walk(fi.node) if isinstance(d_, ast.Assign) and isinstance(d_.targets[0], ast.Name) and d_.targets[0].id in idx_names
+                     and isinstance(d_.value, ast.Call) and call_method(d_.value)[1] == "index"]
+            ok_i = len(idx_names) == 1 and len(defs_) == 1 and idx == Sym.atom(idx_names[0]) + Sym.const(1) \
+                and src(call_method(defs_[0].value)[0]) == src(a_.value.value)
+            ctx.check(ok_i, "NEXT", f"{FN}: the note compared with is the next occurrence of the pitch (`{short(a_.value, 60)}`)", function=FN,
+                      construct="the fit test looks at an occurrence other than the next one of the same pitch",
+                      message=f"`{short(a_, 90)}`: index normal form `{idx.canon()}`, expected position of this note + 1", file=fi.file, node=a_)
     for c, g in nxt:
         t = g.test
         from ..linear import relation, same_relation
